@@ -515,8 +515,13 @@ func BuildDiffProof(actions []RPCWriteAction, sectorRoots []types.Hash256) (tree
 func VerifyDiffProof(actions []RPCWriteAction, numLeaves uint64, treeHashes, leafHashes []types.Hash256, oldRoot, newRoot types.Hash256, appendRoots []types.Hash256) bool {
 	verifyMulti := func(proofIndices []uint64, treeHashes, leafHashes []types.Hash256, numLeaves uint64, root types.Hash256) bool {
 		var acc proofAccumulator
+		var short bool // a range needed more tree hashes than the proof holds
 		insertRange := func(i, j uint64) {
-			for i < j && len(treeHashes) > 0 {
+			for i < j {
+				if len(treeHashes) == 0 {
+					short = true
+					return
+				}
 				subtreeSize := nextSubtreeSize(i, j)
 				height := bits.TrailingZeros64(subtreeSize) // log2
 				acc.insertNode(treeHashes[0], height)
@@ -533,7 +538,7 @@ func VerifyDiffProof(actions []RPCWriteAction, numLeaves uint64, treeHashes, lea
 		}
 		insertRange(start, numLeaves)
 
-		return acc.root() == root && len(treeHashes) == 0
+		return !short && acc.root() == root && len(treeHashes) == 0
 	}
 
 	// first use the original proof to construct oldRoot
